@@ -27,6 +27,8 @@ Lemma K_oc_copy_objects : forall x, oc_copy_objects x = x. Proof. reflexivity. Q
 Lemma K_noc_copy_super : forall x, noc_copy_super x = x. Proof. reflexivity. Qed.
 Lemma K_noc_copy_index : forall x, noc_copy_index x = x. Proof. reflexivity. Qed.
 Lemma K_oc_plus_copy : forall x, oc_plus_copy x = x. Proof. reflexivity. Qed.
+Lemma K_oc_init_add : forall x, oc_init_add x = x. Proof. reflexivity. Qed.
+Lemma K_dsc_store_val : forall x, dsc_store_val x = x. Proof. reflexivity. Qed.
 
 (* ------------------------------------------------------------------ *)
 (* ordered dictionaries *)
@@ -695,12 +697,103 @@ Proof.
     inversion E; subst. split; [exact Hinv|]. split; [apply firstn_all | exact I].
 Qed.
 
+(* failed mutators leave the heap as it was *)
+Lemma add_failure_atomic : forall h i x h' e, noc_add h i x = (h', Err e) -> h' = h.
+Proof.
+  intros h i x h' e E. unfold noc_add in E.
+  destruct (get_inst h i) as [[[ty lo] di]|]; [|inversion E; auto].
+  destruct (get_list h lo); [|inversion E; auto].
+  destruct (get_dict h di); [|inversion E; auto].
+  destruct (oc_add_objs h ty x); inversion E; auto.
+Qed.
+
+Lemma hinv_view_e : forall h i ty l d,
+  hinv h -> view h i = Some (ty, l, d) -> d = od_of (enum_names 0 l).
+Proof.
+  intros h i ty l d [W _] V. apply view_nth in V. destruct V as (lo & di & A & B & C).
+  destruct (W _ _ _ _ A) as (l' & B' & C'). rewrite B in B'; inversion B'; subst l'.
+  rewrite C in C'; inversion C'; reflexivity.
+Qed.
+
+(* constructor with initial objects *)
+Lemma add_each_spec : forall s h c n,
+  hinv h -> (n <= length h)%nat ->
+  (forall ty lo di, nth_error h c = Some (CInst ty lo di) -> (n <= lo)%nat /\ (n <= di)%nat) ->
+  forall h' r, add_each h c s = (h', r) ->
+  hinv h' /\ firstn n h' = firstn n h /\ length h' = length h
+  /\ (forall ty lo di, nth_error h c = Some (CInst ty lo di) -> nth_error h' c = Some (CInst ty lo di))
+  /\ match r with
+     | Err _ => True
+     | Ok _ => forall ty l d, view h c = Some (ty, l, d) ->
+                view h' c = Some (ty, l ++ s, od_of (enum_names 0 (l ++ s)))
+                /\ Forall (fun o => issub (ocls o) ty = true) s
+     end.
+Proof.
+  induction s as [|o t IH]; intros h c n HI Hn Hc h' r E; cbn in E.
+  - inversion E; subst. split; [exact HI|]. split; [reflexivity|]. split; [reflexivity|]. split; [auto|].
+    intros ty l d V. rewrite app_nil_r.
+    pose proof (hinv_view_e _ _ _ _ _ HI V) as Hd. rewrite Hd in V. split; [exact V | constructor].
+  - destruct (noc_add h c (OpObj o)) as [h1 [u|e]] eqn:Ea.
+    + destruct (noc_add_spec _ _ _ _ _ HI Ea) as (HI1 & L1 & _ & ty & lo & di & l & news & A & B & C & D & V1).
+      destruct (Hc _ _ _ A) as [Hlo Hdi].
+      assert (A1 : nth_error h1 c = Some (CInst ty lo di)).
+      { apply view_nth in V1. destruct V1 as (lo1 & di1 & X & _). rewrite D in X |- *. unfold put in *.
+        rewrite !nth_error_set_nth in *. destruct (Nat.eqb c di); [destruct (if Nat.eqb di lo then _ else _); discriminate|].
+        destruct (Nat.eqb c lo); [destruct (nth_error h lo); discriminate|]. exact A. }
+      assert (Hc1 : forall ty0 lo0 di0, nth_error h1 c = Some (CInst ty0 lo0 di0) -> (n <= lo0)%nat /\ (n <= di0)%nat).
+      { intros ty0 lo0 di0 X. rewrite A1 in X. inversion X; subst. auto. }
+      destruct (IH h1 c n HI1 ltac:(lia) Hc1 h' r E) as (HI' & P' & L' & K' & R').
+      split; [exact HI'|]. split; [|split; [lia|split]].
+      * rewrite P', D. unfold put. rewrite !firstn_set_nth_ge by lia. reflexivity.
+      * intros ty0 lo0 di0 X. rewrite A in X. inversion X; subst. apply K'. exact A1.
+      * destruct r as [u'|e]; [|exact I]. intros ty0 l0 d0 V.
+        assert (V0 : view h c = Some (ty, l, od_of (enum_names 0 l))).
+        { destruct (proj1 HI _ _ _ _ A) as (l2 & B2 & C2). rewrite B in B2. inversion B2; subst l2.
+          apply view_nth. exists lo, di. auto. }
+        rewrite V0 in V. inversion V; subst ty0 l0 d0.
+        cbn in C. destruct (issub (ocls o) ty) eqn:Io; inversion C; subst news.
+        destruct (R' _ _ _ V1) as [V' T']. rewrite <- app_assoc in V'. cbn [app] in V'.
+        split; [exact V' | constructor; assumption].
+    + inversion E; subst. rewrite (add_failure_atomic _ _ _ _ _ Ea).
+      split; [exact HI|]. split; [reflexivity|]. split; [reflexivity|]. split; [auto | exact I].
+Qed.
+
+Lemma noc_new_from_spec : forall h ty s h' r,
+  hinv h -> noc_new_from h ty s = (h', r) ->
+  hinv h' /\ firstn (length h) h' = h
+  /\ match r with
+     | Err _ => True
+     | Ok c => (length h <= c)%nat /\ get_inst h c = None
+               /\ view h' c = Some (ty, s, od_of (enum_names 0 s))
+               /\ Forall (fun o => issub (ocls o) ty = true) s
+     end.
+Proof.
+  intros h ty s h' r HI E. unfold noc_new_from in E.
+  destruct (noc_new h ty) as [h1 c] eqn:En.
+  destruct (noc_new_spec _ _ _ _ HI En) as (HI1 & P1 & Hc & V1).
+  assert (L1 : (length h <= length h1)%nat).
+  { rewrite <- P1 at 1. rewrite firstn_length. lia. }
+  assert (Hc1 : forall ty0 lo di, nth_error h1 c = Some (CInst ty0 lo di) -> (length h <= lo)%nat /\ (length h <= di)%nat).
+  { intros ty0 lo di X. unfold noc_new, alloc in En. cbn in En. rewrite !app_length in En. cbn [length] in En.
+    rewrite <- !app_assoc in En. cbn [app] in En. inversion En; subst h1 c.
+    rewrite nth_error_app2 in X by lia.
+    match type of X with nth_error _ ?k = _ => replace k with 2%nat in X by lia end.
+    cbn in X. inversion X; subst. lia. }
+  destruct (add_each h1 c s) as [h2 [u|e]] eqn:Ea; inversion E; subst h' r;
+    destruct (add_each_spec s h1 c (length h) HI1 L1 Hc1 _ _ Ea) as (HI2 & P2 & L2 & K2 & R2).
+  - split; [exact HI2|]. split; [rewrite P2; exact P1|]. split; [exact Hc|].
+    split; [unfold get_inst; rewrite (proj2 (nth_error_None h c)) by lia; reflexivity|].
+    destruct (R2 _ _ _ V1) as [V T]. cbn [app] in V. auto.
+  - split; [exact HI2|]. split; [rewrite P2; exact P1 | exact I].
+Qed.
+
 (* ------------------------------------------------------------------ *)
 (* all histories *)
 Lemma step_inv : forall h o, hinv h -> hinv (fst (step h o)).
 Proof.
-  intros h [ty|i x|i k|i x] Hinv; cbn [step].
+  intros h [ty|ty s|i x|i k|i x] Hinv; cbn [step].
   - destruct (noc_new h ty) as [h' c] eqn:E. cbn. eapply noc_new_spec; eauto.
+  - destruct (noc_new_from h ty s) as [h' [c|e]] eqn:E; cbn; eapply noc_new_from_spec; eauto.
   - destruct (noc_add h i x) as [h' [u|e]] eqn:E; cbn; eapply noc_add_spec; eauto.
   - destruct (noc_pop h i k) as [h' [u|e]] eqn:E; cbn; eapply noc_pop_spec; eauto.
   - destruct (noc_plus h i x) as [h' [u|e]] eqn:E; cbn; eapply noc_plus_spec; eauto.
@@ -745,16 +838,6 @@ Proof.
     repeat split. apply py_get_nth; exact E.
   - intros n NI. unfold noc_index_by_name, noc_contains, od_mem. rewrite V.
     rewrite K_index_by_name_idx0, (enum_names_get_none l 0 n NI). auto.
-Qed.
-
-(* failed mutators leave the heap as it was *)
-Lemma add_failure_atomic : forall h i x h' e, noc_add h i x = (h', Err e) -> h' = h.
-Proof.
-  intros h i x h' e E. unfold noc_add in E.
-  destruct (get_inst h i) as [[[ty lo] di]|]; [|inversion E; auto].
-  destruct (get_list h lo); [|inversion E; auto].
-  destruct (get_dict h di); [|inversion E; auto].
-  destruct (oc_add_objs h ty x); inversion E; auto.
 Qed.
 
 Lemma pop_failure_atomic : forall h i k h' e, noc_pop h i k = (h', Err e) -> h' = h.
@@ -1047,19 +1130,43 @@ Proof.
   apply Forall_app in F. destruct F as [F1 F2]. inversion F2; subst. apply Forall_app. auto.
 Qed.
 
+Lemma noc_add_typed : forall h i x h' r,
+  hinv h -> typed_heap h -> noc_add h i x = (h', r) -> typed_heap h'.
+Proof.
+  intros h i x h' [u|e] HI T E.
+  - destruct (noc_add_spec _ _ _ _ _ HI E) as (_ & _ & _ & ty & lo & di & l & news & A & B & C & D & _).
+    destruct (proj1 HI _ _ _ _ A) as (l0 & B0 & C0). rewrite B in B0; inversion B0; subst l0.
+    rewrite D. eapply typed_write; eauto. apply Forall_app. split; [eapply T; eauto|].
+    eapply oc_add_objs_typed; eauto.
+  - rewrite (add_failure_atomic _ _ _ _ _ E). exact T.
+Qed.
+
+Lemma add_each_typed : forall s h c h' r,
+  hinv h -> typed_heap h -> add_each h c s = (h', r) -> typed_heap h'.
+Proof.
+  induction s as [|o t IH]; intros h c h' r HI T E; cbn in E; [inversion E; subst; exact T|].
+  destruct (noc_add h c (OpObj o)) as [h1 [u|e]] eqn:Ea.
+  - eapply IH; [| |exact E]; [eapply noc_add_spec; eauto | eapply noc_add_typed; eauto].
+  - inversion E; subst. eapply noc_add_typed; eauto.
+Qed.
+
+Lemma noc_new_typed : forall h ty, hinv h -> typed_heap h -> typed_heap (fst (noc_new h ty)).
+Proof.
+  intros h ty HI T. unfold noc_new, alloc. cbn. rewrite !app_length. cbn [length].
+  rewrite <- !app_assoc. cbn [app].
+  replace (length h + 1)%nat with (S (length h)) by lia.
+  apply typed_alloc3; auto.
+Qed.
+
 Lemma step_typed : forall h o, hinv h -> typed_heap h -> typed_heap (fst (step h o)).
 Proof.
-  intros h [ty|i x|i k|i x] HI T; cbn [step].
-  - unfold noc_new, alloc. cbn. rewrite !app_length. cbn [length].
-    rewrite <- !app_assoc. cbn [app].
-    replace (length h + 1)%nat with (S (length h)) by lia.
-    apply typed_alloc3; auto.
-  - destruct (noc_add h i x) as [h' [u|e]] eqn:E; cbn.
-    + destruct (noc_add_spec _ _ _ _ _ HI E) as (_ & _ & _ & ty & lo & di & l & news & A & B & C & D & _).
-      destruct (proj1 HI _ _ _ _ A) as (l0 & B0 & C0). rewrite B in B0; inversion B0; subst l0.
-      rewrite D. eapply typed_write; eauto. apply Forall_app. split; [eapply T; eauto|].
-      eapply oc_add_objs_typed; eauto.
-    + rewrite (add_failure_atomic _ _ _ _ _ E). exact T.
+  intros h [ty|ty s|i x|i k|i x] HI T; cbn [step].
+  - pose proof (noc_new_typed h ty HI T) as X. destruct (noc_new h ty) as [h' c]. exact X.
+  - unfold noc_new_from. pose proof (noc_new_typed h ty HI T) as X.
+    destruct (noc_new h ty) as [h1 c] eqn:En. cbn [fst] in X.
+    pose proof (noc_new_spec _ _ _ _ HI En) as (HI1 & _).
+    destruct (add_each h1 c s) as [h2 [u|e]] eqn:Ea; cbn; eapply add_each_typed; eauto.
+  - destruct (noc_add h i x) as [h' [u|e]] eqn:E; cbn; eapply noc_add_typed; eauto.
   - destruct (noc_pop h i k) as [h' [o|e]] eqn:E; cbn; [|rewrite (pop_failure_atomic _ _ _ _ _ E); exact T].
     unfold noc_pop in E.
     destruct (get_inst h i) as [[[ty lo] di]|] eqn:Ei; [|discriminate].
@@ -1113,4 +1220,21 @@ Proof.
   assert (T0 : typed_heap []) by (intros k; intros; destruct k; discriminate).
   apply view_nth in V. destruct V as (lo & di & A & B & _).
   eapply (G ops [] hinv_nil T0); eauto.
+Qed.
+
+(* the constructor with initial objects, after any history *)
+Theorem new_from_all_histories : forall ops ty s h' r,
+  noc_new_from (run [] ops) ty s = (h', r) ->
+  let h := run [] ops in
+  firstn (length h) h' = h
+  /\ match r with
+     | Err _ => True
+     | Ok c => get_inst h c = None
+               /\ view h' c = Some (ty, s, od_of (enum_names 0 s))
+               /\ Forall (fun o => issub (ocls o) ty = true) s
+     end.
+Proof.
+  intros ops ty s h' r E h. pose proof (run_inv ops [] hinv_nil) as HI. fold h in HI, E.
+  destruct (noc_new_from_spec _ _ _ _ _ HI E) as (_ & P & R). split; [exact P|].
+  destruct r as [c|e]; [|exact I]. tauto.
 Qed.
